@@ -46,6 +46,9 @@ pub struct Scn {
     pub res: Vec<String>,
     pub rules: Rules,
     pub ops: Vec<Op>,
+    /// number of other resources that already have a statistics node when the run starts
+    #[serde(default)]
+    pub crowd: u32,
 }
 
 /// a random mix of rules of all five families that blocks a good share of the traffic
@@ -171,7 +174,7 @@ impl Prop for C04 {
         }
     }
     fn rule_text(&self) -> &'static str {
-        "seeded scenarios: 2-3 resources, inbound/outbound entries with batch 1..k and optional argument, a random mix of rules of all five families that blocks part of the traffic, 20-70 ops over Enter/Exit(ok|error)/Advance(boundary-biased). After every op the default 1 s window and a 10 s reader of every resource node and of the global inbound node (sum of pass/block/complete/rt, avg_rt, in-flight) are compared with a reference account built from the observed outcomes. Non-trivial = run has a passed, a blocked and a completed entry; distinct = distinct trace hash."
+        "seeded scenarios: 2-3 resources, inbound/outbound entries with batch 1..k and optional argument, a random mix of rules of all five families that blocks part of the traffic (one run in 150 with ~10000 other resources already tracked by the node storage), 20-70 ops over Enter/Exit(ok|error)/Advance(boundary-biased). After every op the default 1 s window and a 10 s reader of every resource node and of the global inbound node (sum of pass/block/complete/rt, avg_rt, in-flight) are compared with a reference account built from the observed outcomes. Non-trivial = run has a passed, a blocked and a completed entry; distinct = distinct trace hash."
     }
     fn components(&self) -> Value {
         json!({"real": ["sentinel-core: EntryBuilder, global slot chain with all rule-check and stat slots, resource nodes, inbound node, all five rule managers"],
@@ -210,7 +213,9 @@ impl Prop for C04 {
                 }
             }
         }
-        serde_json::to_value(Scn { epoch_ns, res, rules, ops }).unwrap()
+        // one run in 150: a process that already tracks about as many resources as the storage's warning limit
+        let crowd = if rng.chance(1, 150) { *rng.pick(&[9_998u32, 10_000, 10_050]) } else { 0 };
+        serde_json::to_value(Scn { epoch_ns, res, rules, ops, crowd }).unwrap()
     }
 
     fn execute(&self, scenario: &Value, cov: &mut Cov) -> RunResult {
@@ -229,6 +234,11 @@ impl Prop for C04 {
     fn shrink(&self, scenario: &Value) -> Vec<Value> {
         let mut out = shrink_ops(scenario);
         let sc: Scn = serde_json::from_value(scenario.clone()).unwrap();
+        if sc.crowd > 0 {
+            let mut c = sc.clone();
+            c.crowd = 0;
+            out.push(serde_json::to_value(c).unwrap());
+        }
         macro_rules! drop_rules {
             ($f:ident) => {
                 for i in 0..sc.rules.$f.len() {
@@ -305,6 +315,12 @@ fn compare(name: &str, t: u64, acct: &Acct, node: &dyn StatNode, ten: &dyn ReadS
 }
 
 fn run(sc: &Scn, w: &mut World, tr: &mut Trace, cov: &mut Cov) -> Option<Violation> {
+    if sc.crowd > 0 {
+        for i in 0..sc.crowd {
+            stat::get_or_create_resource_node(&format!("c04_crowd_{}", i), &sentinel_core::base::ResourceType::Common);
+        }
+        cov.hit("ten_thousand_resources_already_tracked");
+    }
     sc.rules.load();
     let mut accts: Vec<Acct> = sc.res.iter().map(|_| Acct::default()).collect();
     let mut inbound = Acct::default();
